@@ -939,7 +939,7 @@ let run_case (t : string list) : string =
         Stdlib.List.mapi
           (fun i st ->
             let sss = match st.Rpc.ss with
-              | Rpc.SWait -> "wait" | Rpc.SRunning _ -> "running" | Rpc.SWriting _ -> "writing" | Rpc.SDone -> "done"
+              | Rpc.SWait -> "wait" | Rpc.SQueued _ -> "queued" | Rpc.SRunning _ -> "running" | Rpc.SWriting _ -> "writing" | Rpc.SDone -> "done"
               | Rpc.SFailed -> "failed" | Rpc.SDropped -> "dropped" in
             let css = match st.Rpc.cs with
               | Rpc.CWriting _ -> "writing" | Rpc.CFinished -> "finished" | Rpc.CAbandoned _ -> "abandoned"
